@@ -1,5 +1,5 @@
 (** C13 — the fee denomination alternates, at most once per week. *)
-From FM Require Import FeeCycle.
+From FM Require Import History.
 
 (** Whatever operation (of any kind, by anybody) changes the fee item, it is the public cycle
     message without attached coins, strictly more than 604800 s of block time after the
@@ -16,6 +16,14 @@ Theorem C13_only_cycle_switches_after_a_week : forall w o,
   (fee_denom_value (fee (market (fst (step w o)))) = D_JUNO \/ fee_denom_value (fee (market (fst (step w o)))) = D_USDC).
 Proof. exact step_fee_spacing. Qed.
 Print Assumptions C13_only_cycle_switches_after_a_week.
+
+(** Over a whole history: the block times (in seconds) at which the denomination switched are
+    each more than 604800 s after the previous one, the first more than 604800 s after
+    instantiation.  ([times_fit]: every block time of the history is a u64 Timestamp.) *)
+Theorem C13_switches_spaced_over_history : forall ops w,
+  times_fit w ops -> spaced (fee_last (fee (market w))) (switch_times w ops).
+Proof. exact switches_spaced. Qed.
+Print Assumptions C13_switches_spaced_over_history.
 
 (** Before (and at) the week mark every cycle attempt is refused without effect ... *)
 Theorem C13_cycle_refused_within_week : forall w a fs fail,
@@ -71,7 +79,9 @@ Example C13_hyps_met :
   fst (step w1 (Exec 3 [] FeeCycle None)) = w1 /\
   fee (market (fst (step w2 (Exec 3 [] FeeCycle None)))) = USDC 604901 /\
   fee (market (run w2 [Exec 3 [] FeeCycle None; Exec 4 [] FeeCycle None])) = USDC 604901 /\
-  fee (market (run w2 [Exec 3 [] FeeCycle None; Advance (604801 * NANOS) 1; Exec 4 [] FeeCycle None])) = JUNO 1209702.
+  fee (market (run w2 [Exec 3 [] FeeCycle None; Advance (604801 * NANOS) 1; Exec 4 [] FeeCycle None])) = JUNO 1209702 /\
+  switch_times w0 [Advance (604801 * NANOS) 1; Exec 3 [] FeeCycle None; Exec 4 [] FeeCycle None; Advance (604801 * NANOS) 1; Exec 4 [] FeeCycle None]
+    = [604901; 1209702].
 Proof.
   cbv zeta. splits; try (vm_compute; reflexivity).
 Qed.
